@@ -16,6 +16,16 @@ THEOREMS = [
     "Qentem.Props.C10.tables_ok_powers",
     "Qentem.Props.C10.tables_ok_real_info",
     "Qentem.Props.C10.tables_ok_strings",
+    "Qentem.Props.C10.int_to_string_exact_unsigned",
+    "Qentem.Props.C10.int_to_string_exact_signed",
+    "Qentem.Props.C10.int_to_string_reversed",
+    "Qentem.Props.C10.big_int_to_string_exact",
+    "Qentem.Props.C10.append_only_int",
+    "Qentem.Props.C10.append_only_real",
+    "Qentem.Props.C10.special_values",
+    "Qentem.Props.C10.special_values_text",
+    "Qentem.Props.C10.format_eq_spec_partial",
+    "Qentem.Props.C10.format_eq_spec_witnesses",
 ]
 OPEN = [
     "Qentem.Props.C10.FormatEqSpec (model text = reference text for every finite double/float, precision <= 40, three formats): stated, proved only for zero / non-finite values",
